@@ -33,6 +33,16 @@ def check(run):
     R.rule('C14.swallow', 'every WebSocketError raisable by send_pong is absorbed at the pong site', 2)
     R.rule('C14.bound', 'send_pong accepts every payload of up to 125 bytes', 1)
     R.rule('C14.route', 'control-frame payloads never pass through the UTF-8 validating reader', 4)
+    R.rule('C14.quiet', 'a Pong that cannot be written does not disturb the event stream: a failed write leaves the '
+                        'session socket bookkeeping alone (only _close_socket/close null it)', 4)
+    R.rule('C14.lazy', 'frames are handed on one by one: a Ping parsed before a later bad frame in the same read is still '
+                       'delivered and answered', 5)
+    from . import C09, C04
+    with R.as_rule('C14.quiet'):
+        C09.socknull(R)
+    with R.as_rule('C14.lazy'):
+        C04.wire(R)
+        C04.order(R)
     before(R)
     branch(R)
     only(R)
